@@ -479,3 +479,40 @@ func reachFromEntry(target ssa.Instruction, o exprOpts, av atomFn) (some, all bo
 	all = some && reachQ(f.Blocks[0], nil, mk(), goal, stop, 0, true)
 	return
 }
+
+// reachAvoiding: with atoms valued by av (other conditions explored both ways),
+// can target be reached from the function entry without passing avoid?
+func reachAvoiding(target, avoid ssa.Instruction, o exprOpts, av atomFn) bool {
+	f := target.Parent()
+	memo := map[ssa.Value]string{}
+	env := intEnv{params: map[ssa.Value]int64{}, lens: map[ssa.Value]int64{}, unknown: map[ssa.Value]bool{}, cells: map[ssa.Value]int64{}, skipLoops: true}
+	env.opaque = func(v ssa.Value) (int64, bool) {
+		if !isIntegerT(v.Type()) && !isBoolT(v.Type()) {
+			return 0, false
+		}
+		if _, isC := v.(*ssa.Const); isC {
+			return 0, false
+		}
+		s, have := memo[v]
+		if !have {
+			s = abbr(exprStr(v, o))
+			memo[v] = s
+		}
+		return av(s)
+	}
+	n := 6000
+	env.fuel = &n
+	tb, ab := target.Block(), avoid.Block()
+	if tb == ab {
+		// same block: reachable without avoid only if target comes first
+		for _, in := range tb.Instrs {
+			if in == target {
+				break
+			}
+			if in == avoid {
+				return false
+			}
+		}
+	}
+	return reachQ(f.Blocks[0], nil, env, func(b *ssa.BasicBlock) bool { return b == tb }, func(b *ssa.BasicBlock) bool { return b == ab && b != tb }, 0, false)
+}
